@@ -273,7 +273,8 @@ REGIONS = {"stale-hdf5-rows-of-other-run": ("restore_equals_saved", _region_othe
 def cases(tier, seed):
     cs = [case_roundtrip(1, 1, "mink"), case_roundtrip(2, 2, "mink"), case_after_calibrate(None, 3), case_after_calibrate(None, 2)]
     if tier == "thorough":
-        cs += [case_roundtrip(2, 1, "msm"), case_roundtrip(1, 2, "msm"), case_after_calibrate(0, 4), case_after_calibrate(1, 5)]
+        cs += [case_roundtrip(2, 1, "msm"), case_roundtrip(1, 2, "msm"), case_roundtrip(3, 1, "mink"), case_roundtrip(2, 3, "mink"),
+               case_after_calibrate(0, 4), case_after_calibrate(1, 5), case_after_calibrate(None, 6), case_after_calibrate(3, 6)]
     else:
         cs.append(case_after_calibrate(0, 3))
     return cs
